@@ -540,3 +540,71 @@ def leaves_for_legal_value(func, param, values, kinds=('raise', 'return')):
                 out.append((n, v))
                 break
     return out
+
+
+def straightline_paths(func, limit=64, with_env=False, skip_calls=False):
+    """[( ((test text, polarity), ..), returned text )] for a function made of plain bindings, ifs and returns only - every local
+    replaced by the expression it was bound to (calls included: the caller vouches that they are pure).  None for anything else."""
+    import copy as _copy
+    out = []
+    envs = []
+
+    class Sub(ast.NodeTransformer):
+        def __init__(self, env):
+            self.env = env
+
+        def visit_Name(self, n):
+            if isinstance(n.ctx, ast.Load) and n.id in self.env:
+                return _copy.deepcopy(self.env[n.id])
+            return n
+
+    def sub(e, env):
+        return Sub(env).visit(_copy.deepcopy(e))
+
+    def run(stmts, env, conds):
+        # -> list of (env, conds) that fall through; appends finished paths to out; raises ValueError on unsupported code
+        live = [(env, conds)]
+        for st in stmts:
+            nxt = []
+            for env_, conds_ in live:
+                if isinstance(st, ast.Assign) and len(st.targets) == 1 and isinstance(st.targets[0], ast.Name):
+                    e2 = dict(env_)
+                    e2[st.targets[0].id] = sub(st.value, env_)
+                    nxt.append((e2, conds_))
+                elif isinstance(st, ast.AnnAssign) and isinstance(st.target, ast.Name) and st.value is not None:
+                    e2 = dict(env_)
+                    e2[st.target.id] = sub(st.value, env_)
+                    nxt.append((e2, conds_))
+                elif isinstance(st, ast.AugAssign) and isinstance(st.target, ast.Name) and st.target.id in env_:
+                    e2 = dict(env_)
+                    e2[st.target.id] = ast.BinOp(left=_copy.deepcopy(env_[st.target.id]), op=st.op, right=sub(st.value, env_))
+                    nxt.append((e2, conds_))
+                elif isinstance(st, ast.If):
+                    t = norm(sub(st.test, env_))
+                    nxt += run(st.body, dict(env_), conds_ + ((t, True),))
+                    nxt += run(st.orelse, dict(env_), conds_ + ((t, False),))
+                elif isinstance(st, ast.Return):
+                    out.append((conds_, norm(sub(st.value, env_)) if st.value is not None else None))
+                    envs.append(env_)
+                elif isinstance(st, ast.Expr) and isinstance(st.value, ast.Constant):
+                    nxt.append((env_, conds_))
+                elif isinstance(st, ast.Pass):
+                    nxt.append((env_, conds_))
+                elif skip_calls and isinstance(st, ast.Expr) and isinstance(st.value, ast.Call):
+                    nxt.append((env_, conds_))               # a call made for its effect: the caller looks at the bindings only
+                else:
+                    raise ValueError(type(st).__name__)
+                if len(nxt) + len(out) > limit:
+                    raise ValueError('too many paths')
+            live = nxt
+        return live
+    try:
+        rest = run(func.node.body, {}, ())
+    except ValueError:
+        return None
+    for env_, conds_ in rest:
+        out.append((conds_, None))
+        envs.append(env_)
+    if with_env:
+        return [(c_, r_, e_) for (c_, r_), e_ in zip(out, envs)]
+    return out
